@@ -370,11 +370,13 @@ Definition l2gw_policy_rescan (a : aconfig) (s c : N) : option (str * str) :=
    Both publish points are gated by validateCandidate (which ends in ValidateMatchIndex) and publish running and the
    rebuilt index together under cd.mu; a rejected candidate publishes nothing.  Readers do not take cd.mu: a lookup is
    an atomic Load of the pointer ([ELoad]) followed, any time later, by Lookup on the immutable index it got ([EUse]). *)
-Record cmstate := { running : config; snap : index }.
-Definition cm_init : cmstate := {| running := []; snap := build [] |}.
+(* applied = how many candidates had their handlers applied (Apply calls reach the data plane / routing daemon): a
+   candidate that is rejected must not have caused any, "rejected BEFORE commit" *)
+Record cmstate := { running : config; snap : index; applied : nat }.
+Definition cm_init : cmstate := {| running := []; snap := build []; applied := 0 |}.
 Definition cm_commit (st : cmstate) (cfg : config) : cmstate :=
   match validate_strict cfg with
-  | VOk => {| running := cfg; snap := build cfg |}
+  | VOk => {| running := cfg; snap := build cfg; applied := S (applied st) |}
   | _ => st
   end.
 Definition cm_lookup (st : cmstate) (s c : N) : option (str * nat) := lookup (snap st) s c.
